@@ -5,6 +5,7 @@
 -/
 import RosuModel.Model.Num
 import RosuModel.Model.Scalar
+import RosuModel.Model.NumParse
 namespace Rosu
 
 /-- `ParseNumberError`. -/
@@ -46,11 +47,22 @@ def scalarParseWithLimits (s : Str) (limit : α) : Except NumErr α :=
     else if Scalar.isNaN n then .error .nan
     else .ok n
 
-/-- `f64::from(MAX_PARSE_VALUE)` resp. `MAX_PARSE_VALUE as f32`. -/
-def maxParseValue : α := Scalar.ofInt i32Max
-
-/-- `<f64 as ParseNumber>::parse` / `<f32 as ParseNumber>::parse`. -/
+/-- `<f64 as ParseNumber>::parse` / `<f32 as ParseNumber>::parse` (`maxParseValue` is in Model/NumParse.lean). -/
 def scalarParse (s : Str) : Except NumErr α := scalarParseWithLimits s maxParseValue
+
+/-- the error-carrying parser agrees with the `Option`-valued one of Model/NumParse.lean. -/
+theorem scalarParseWithLimits_toOption (s : Str) (limit : α) :
+    (scalarParseWithLimits s limit).toOption = floatParseWithLimits s limit := by
+  unfold scalarParseWithLimits floatParseWithLimits
+  cases (Scalar.parse (trim s) : Option α) with
+  | none => rfl
+  | some n =>
+    simp only
+    split
+    · rfl
+    · split
+      · rfl
+      · split <;> rfl
 
 end
 end Rosu
